@@ -205,6 +205,42 @@ theorem step_length (s : Str) (op : Op) :
 
 example : insertData ['a', '𝒳'] 1 ['é'] = some ['a', 'é', '𝒳'] ∧
     deleteData ['a', 'é', '𝒳'] 1 1 = some ['a', '𝒳'] := by decide
+-- whole histories (added 2026-09-23)
+/-- the data after a sequence of calls -/
+def runOps (s : Str) (ops : List Op) : Str := ops.foldl (fun s op => (step s op).1) s
+
+/-- the calls of a history that did not raise INDEX_SIZE_ERR (judged in the state each one ran in) -/
+def okOps : Str → List Op → List Op
+  | _, [] => []
+  | s, op :: r => if (step s op).2 = .indexSize then okOps s r else op :: okOps (step s op).1 r
+
+/-- over any history, on any data: the calls that failed might as well not have been made - the final data is that
+    of the successful calls alone (no partial effect of a refused call survives, however the calls are interleaved) -/
+theorem failed_calls_leave_no_trace (ops : List Op) (s : Str) : runOps s ops = runOps s (okOps s ops) := by
+  induction ops generalizing s with
+  | nil => rfl
+  | cons op r ih =>
+    unfold okOps
+    by_cases h : (step s op).2 = .indexSize
+    · rw [if_pos h]
+      have := failed_step_keeps_data s op h
+      simp only [runOps, List.foldl_cons] at ih ⊢
+      rw [this]; exact ih s
+    · rw [if_neg h]
+      simp only [runOps, List.foldl_cons] at ih ⊢
+      exact ih _
+
+/-- reads can be dropped from a history as well -/
+theorem reads_leave_no_trace (ops : List Op) (s : Str) :
+    runOps s ops = runOps s (ops.filter fun | .len | .sub _ _ => false | _ => true) := by
+  induction ops generalizing s with
+  | nil => rfl
+  | cons op r ih =>
+    cases op <;> exact ih _
+
+example : runOps ['a', 'b'] [.ins 5 ['x'], .del 1 9, .sub 7 1, .app ['𝒳']] = ['a', '𝒳'] ∧
+    (okOps ['a', 'b'] [.ins 5 ['x'], .del 1 9, .sub 7 1, .app ['𝒳']]).length = 2 := by decide
+
 -- splitText in the tree: where the second half goes (added 2026-09-23)
 section SplitPlace
 open XmlRs.Dom
